@@ -22,7 +22,7 @@ pub fn prop() -> Prop {
             Sub::tape("primitives_large", 40, 1_500, 75_000, |d, cx| run(d, cx, 4)),
             Sub::tape("polylines", 40, 40_000, 2_000_000, |d, cx| run(d, cx, 1)),
             Sub::tape("images", 120, 50_000, 2_500_000, |d, cx| run(d, cx, 2)),
-            Sub::tape("text", 60, 40_000, 2_000_000, |d, cx| run(d, cx, 3)),
+            Sub::tape("text", 300, 40_000, 2_000_000, |d, cx| run(d, cx, 3)),
         ],
     }
 }
